@@ -499,6 +499,24 @@ def run_purge_crash(args):
         box.destroy()
 
 
+def run_purge_fault(args):
+    """trash-rm with errno e instead of its k-th operation: the projected final state (judged like a state of a purge in
+    progress: an entry is never torn apart - a payload still there keeps its info)"""
+    scen, k, e = args
+    runner.prepare()
+    cmd, argv, sel = PURGE_SCENARIOS[scen]
+    box = PurgeBox(link='dir' if scen.endswith('@dirlink') else 'dangling', occupied=OCCUPIED.get(scen, ()), fileslink=scen.endswith('@fileslink'))
+    try:
+        res = box.run(cmd, argv, faults=[{'at': k, 'errno': e, 'sticky': False}])
+        info, pay, dest = box.project()
+        inj = [[ev['op'], ev['raw']] for ev in res['trace'] if ev.get('injected')]
+        return {'scen': scen, 'k': k, 'errno': e, 'injected': inj, 'exit': res['exit'], 'outside_intact': box.outside_intact(),
+                'stderr': res['stderr'][-300:].decode('utf-8', 'replace'),
+                'state': {'info': info, 'pay': pay, 'dest': dest, 'done': False, 'cmd': cmd, 'selected': sel, 'purged': False, 'occupied': []}}
+    finally:
+        box.destroy()
+
+
 def purge_state_trace(args):
     """run a purge scenario in lock-step with every operation a step; -> the sequence of projected states"""
     scen, permute_seed = args
